@@ -200,6 +200,19 @@ func Supervise(p *Prop, tier string) int {
 	var outcomes []childOutcome
 	for _, b := range builds {
 		bin := binFor(root, b)
+		if b == "386" {
+			// the 32-bit variant is an extra: if it could not be built, or this host cannot execute
+			// 32-bit binaries, it is skipped and the evidence says so; the native builds still decide
+			if _, err := os.Stat(bin); err != nil {
+				r.Extra["build_386"] = "skipped: binary not built"
+				continue
+			}
+			if out, err := exec.Command(bin, "list").CombinedOutput(); err != nil || !strings.Contains(string(out), p.ID) {
+				r.Extra["build_386"] = fmt.Sprintf("skipped: the 32-bit binary does not run on this host (%v)", err)
+				continue
+			}
+			r.Extra["build_386"] = "run"
+		}
 		if _, err := os.Stat(bin); err != nil {
 			r.AddInconclusive("binary for build %q missing: %v", b, err)
 			continue
